@@ -43,6 +43,7 @@ type Violation struct {
 	Class string          `json:"class"` // name of a harness predicate, "" = unclassified
 	Msg   string          `json:"msg"`
 	Case  json.RawMessage `json:"case"`
+	Mode  string          `json:"mode,omitempty"`
 }
 
 type merged struct {
@@ -428,7 +429,7 @@ func writeReplay(p *propInfo, tier, class string, v Violation) string {
 		head = strings.TrimSpace(string(out))
 	}
 	b, _ := json.MarshalIndent(map[string]any{
-		"property": p.id, "tier": tier, "class": class, "message": v.Msg, "case": v.Case, "repo_head": head,
+		"property": p.id, "tier": tier, "class": class, "message": v.Msg, "case": v.Case, "mode": v.Mode, "repo_head": head,
 		"how_to_replay": fmt.Sprintf("/verif/bin/vcheck %s --replay %s", p.id, path),
 	}, "", " ")
 	os.WriteFile(path, b, 0o644)
